@@ -26,7 +26,7 @@ BUILT = {
    tech="deterministic simulation with a re-framing transport stage; differential oracle against the un-reframed run; frame well-formedness monitor under fault"),
 
  "C04": dict(cat="fault_enumeration", ref="DESIGN.md §6 C04",
-   text="Every quiescent point of every simulated session (receiver parked in Read at byte N) is a checked crash point: each listed destination path must be old-complete, new-complete or legitimately absent. On top, connection cuts of either direction and freezes of the receiving party are injected at sampled byte offsets (6 per scenario quick, 30 thorough); after an error return no temporary file may remain.",
+   text="Every quiescent point of every simulated session (receiver parked in Read at byte N) is a checked crash point: each listed destination path must be old-complete, new-complete or legitimately absent. On top, connection cuts of either direction and freezes of the receiving party are injected at sampled byte offsets (6 per scenario quick, 30 thorough); after an error return no temporary file may remain. The kernel's inotify history of every run shows whether a replaced path was ever unlinked in between (instants between system calls).",
    note="Crash points are wire-token boundaries; crashes between two syscalls of one goroutine and power-loss durability are not simulated (no storage seam). One known finding (leftover temp file when the generator's write fails first) is reported as KNOWN-FINDING.",
    tech="deterministic simulation with fault injection: step invariant + cut/freeze faults at byte offsets"),
  "C05": dict(cat="exploration", ref="DESIGN.md §6 C05",
